@@ -16,7 +16,7 @@ META = {
                   "The IR of each handler is regenerated from /repo on every run (xlate, go/ast) into coq/Gen/Prog_Ctl*.v; C32_static_* (vm_compute on the regenerated IR) states that the dominance analysis accepts every handler "
                   "for the check isValidRequest with only status construction allowed before it; IRProofs.dominated_sound / failing_check_no_effect (proved once, for all IR programs, all environments, all executions incl. loops) "
                   "turn that into: a request failing the check causes no call other than building the PermissionDenied status (C32_*_no_effect). The check itself is modelled over an abstract signature scheme (C32_valid_implies) "
-                  "and tied to the code by calling every method via reflection with unsigned / disallowed-key / corrupted / foreign / body-mismatch / valid signatures against a real engine and recording fakes.",
+                  "and tied to the code by calling every method via reflection with unsigned / disallowed-key / corrupted / foreign / body-mismatch / valid signatures and replays of an already accepted signature with another body or method against a real engine and recording fakes.",
     "level_note": "Trusted: Coq kernel + vm_compute; the translator xlate (syntactic, no type information; conservative: unknown calls are effects) and its guard-shape recognition; the tables in Prog/Tables_C32.v "
                   "(benign calls: err.Error, status.Error); ECDSA/SHA-512 verification is abstract in the model (exercised for real by the harness); gRPC interceptors/transport not modelled.",
     "trusted_base": ["Coq 8.16.1 kernel, vm_compute", "xlate translator (Go, go/ast)", "Prog/Tables_C32.v tables", "harness/cmd/ctl"],
@@ -78,9 +78,18 @@ def run(ctx):
     # direct reference evaluation (independent of the Coq model): everything that is not a
     # correct signature by the allowed key must be denied without effect
     def sig_term(r):
-        if r["kind"] == "allowed_otherbody":
+        if r["kind"] in ("allowed_otherbody", "replay_sig_other_body", "replay_sig_other_method"):
+            # body_changed: the body the signature was made over differs from the body sent
+            if r["kind"] == "replay_sig_other_method" and r["server"] + r["method"] in first_methods:
+                return "None"      # nothing to replay yet: sent without signature
             return "(Some (1, (1, %d)))" % (5 if r["body_changed"] else 0)
         return KINDS[r["kind"]]
+    first_methods = set()
+    seen_srv = set()
+    for r in rs:
+        if r["server"] not in seen_srv:
+            seen_srv.add(r["server"])
+            first_methods.add(r["server"] + r["method"])
     unsupported = [r for r in rs if r.get("note") == "unsupported streaming method"]
     ctx.tie(not unsupported)
     if model:
@@ -103,7 +112,7 @@ def run(ctx):
         "programs": len(methods),
         "evaluations": len(rs),
         "distinct_nontrivial": len({(r["server"], r["method"], r["kind"]) for r in rs if r["kind"] != "valid"}),
-        "rule": "every method of both control servers (reflection) x 8 signature kinds; non-trivial = the request must be rejected; distinct by (server, method, kind)",
+        "rule": "every method of both control servers (reflection) x 10 signature kinds (8 single requests + 2 two-step replays of an accepted signature); non-trivial = the request must be rejected; distinct by (server, method, kind)",
         "kinds_histogram": dict(collections.Counter(r["kind"] for r in rs)),
         "denied_histogram": dict(collections.Counter("%s:%s" % (r["kind"], r["denied"]) for r in rs)),
         "methods": ["%s.%s" % m for m in methods],
